@@ -1,5 +1,5 @@
 //@ append src/cli/src/keyring.rs
-//@ native verif_oracle_keyring_parse "bounded stand-in / witness finder (C17, C09): keyrings of 1..4 entries written by the real serialize_key (names incl. '=', spaces, 128-byte ASCII and multi-byte names; with and without PrivateKey) parse back to exactly the entries written, in order; 14 kinds of malformed keyring (duplicate name / public key at every pair of positions among 4 entries, 129-byte names with fewer than 129 characters, missing fields, wrong key lengths, stray lines) are rejected; every truncation, line deletion, line duplication and a 6-character substitution at every third position of a two-entry keyring, and a 2-, 3- and 4-byte character at every byte offset 0..70 of every kind of line, neither panics nor yields an entry violating the accepted-entry invariant, and the accepted keys decode without panic"
+//@ native verif_oracle_keyring_parse "bounded stand-in / witness finder (C17, C09): keyrings of 1..4 entries written by the real serialize_key (names incl. '=', spaces, 128-byte ASCII and multi-byte names; with and without PrivateKey) parse back to exactly the entries written, in order; the three lines of a section parse in every order; 17 kinds of malformed keyring (incl. a second PublicKey / PrivateKey line in a section) (duplicate name / public key at every pair of positions among 4 entries, 129-byte names with fewer than 129 characters, missing fields, wrong key lengths, stray lines) are rejected; every truncation, line deletion, line duplication and a 6-character substitution at every third position of a two-entry keyring, and a 2-, 3- and 4-byte character at every byte offset 0..70 of every kind of line, neither panics nor yields an entry violating the accepted-entry invariant, and the accepted keys decode without panic"
 //@ native verif_oracle_lock_format "bounded stand-in / witness finder (C15, C16): for password lengths 0, 1, 64, 65, 100 the real lock_private_key output is base64(version || salt || ChaCha20-Poly1305(scrypt(pw, salt, 32768, 8, 1, 32), nonce 0, key, aad = version)) composed independently from the crate's primitives, unlocks to the same key, and is rejected under an unrelated password and after a bit flip in the version (both low and high bit), the salt, the ciphertext and the tag"
 // Native oracles on the REAL CLI code.  Never counted as proved; a disagreement is a concrete failing input.
 #[cfg(test)]
@@ -95,6 +95,19 @@ mod verif_o_cli {
                 other => fail(&mut bad, &mut first, format!("keyring with the distinct names {:?} is not accepted: {}", nm, if other.is_err() { "PANIC" } else { "rejected" })),
             }
         }
+        // 1c. the order of the lines inside a section does not matter: every permutation of Name / PublicKey / PrivateKey parses
+        {
+            let lines = [format!("Name = perm"), format!("PublicKey = {}", pk(50).as_str()), format!("PrivateKey = {}", sk(5).as_str())];
+            for perm in [[0usize, 1, 2], [0, 2, 1], [1, 0, 2], [1, 2, 0], [2, 0, 1], [2, 1, 0]] {
+                n += 1;
+                let cfg = format!("[Key]\n{}\n{}\n{}\n", lines[perm[0]], lines[perm[1]], lines[perm[2]]);
+                match std::panic::catch_unwind(|| Keyring::new(&cfg)) {
+                    Ok(Ok(ring)) if ring.keys.len() == 1 && ring.keys[0].name == "perm" && ring.keys[0].public_key.as_str() == pk(50).as_str()
+                        && ring.keys[0].private_key.as_ref().map(|x| x.as_str().to_string()) == Some(sk(5).as_str().to_string()) => {}
+                    other => fail(&mut bad, &mut first, format!("section with its lines in the order {:?} (0 Name, 1 PublicKey, 2 PrivateKey) is {}", perm, match other { Err(_) => "a PANIC", Ok(Err(_)) => "rejected", Ok(Ok(_)) => "parsed to a different entry" })),
+                }
+            }
+        }
         // 2. malformed keyrings are rejected
         let mut rejects: Vec<(String, String)> = Vec::new();
         let base: Vec<&str> = vec!["carol", "alice", "dave", "bob"];
@@ -121,6 +134,9 @@ mod verif_o_cli {
         rejects.push(("Name before any section".into(), format!("Name = a\n[Key]\nName = b\nPublicKey = {}\n", pk(1).as_str())));
         rejects.push(("stray line".into(), format!("[Key]\nName = b\nPublicKey = {}\nhello\n", pk(1).as_str())));
         rejects.push(("two Name lines in one section".into(), format!("[Key]\nName = b\nName = c\nPublicKey = {}\n", pk(1).as_str())));
+        rejects.push(("two PublicKey lines in one section".into(), format!("[Key]\nName = b\nPublicKey = {}\nPublicKey = {}\n", pk(1).as_str(), pk(2).as_str())));
+        rejects.push(("two PublicKey lines before a PrivateKey line".into(), format!("[Key]\nName = b\nPublicKey = {}\nPublicKey = {}\nPrivateKey = {}\n", pk(1).as_str(), pk(2).as_str(), sk(1).as_str())));
+        rejects.push(("two PrivateKey lines in one section".into(), format!("[Key]\nName = b\nPublicKey = {}\nPrivateKey = {}\nPrivateKey = {}\n", pk(1).as_str(), sk(1).as_str(), sk(2).as_str())));
         rejects.push(("no section at all".into(), "# nothing here\n".to_string()));
         for (what, cfg) in rejects.iter() {
             n += 1;
